@@ -939,6 +939,29 @@ def rule_tolerance_exponent(ctx, cfg='prod-all'):
         ok = len(found) >= 1 and all(sorted(sh) == want for _, sh in found)
         yield Ob('RF-Q', '%s#tolerance-exponent' % entry, ok, 'the tolerance is 2^(l + t + floor(T/2) + 1) * sqrt(b - a) on both bounds', prog.bodies[entry].span,
                  fact=found[:4], expected=want)
+        # the square root in the tolerance is taken of the interval *width* b - a: its operand must be computed from both bounds
+        eb = prog.bodies[entry]
+        ka, kb = eb.param_index('a'), eb.param_index('b')
+        if ka is None or kb is None:
+            raise AnchorMissing('%s: parameters a / b' % entry)
+        roots = []
+        for fr in walk(eng, entry, include_closures=False):
+            if not fr.path.startswith('cl03::range_proof'):
+                continue
+            for bi, t in fr.body.calls():
+                cal = t.get('callee') or ''
+                if not (cal.startswith('rug::Integer::') and '::sqrt' in cal) or not t['args']:
+                    continue
+                ps = {strip(a)[1] for a in fr.lift(fr.fd.read_op(t['args'][0])) if strip(a)[0] == 'p'}
+                if kb in ps or ka in ps:
+                    # (roots of x - a', b' - x also mention the bounds: they depend on the committed value as well and are judged by RF-Q sqrt-on-every-path)
+                    kx = eb.param_index('x')
+                    if kx is not None and kx in ps:
+                        continue
+                    roots.append(('%s L%s' % (fr.path.split('::')[-1], t.get('line')), ka in ps, kb in ps))
+        yield Ob('RF-Q', '%s#tolerance-root' % entry, len(roots) >= 1 and all(x[1] and x[2] for x in roots),
+                 'the square root in the tolerance term is taken of the width b - a (an operand computed from both bounds)', eb.span,
+                 fact=[{'site': w, 'depends_on_a': da, 'depends_on_b': db} for w, da, db in roots][:4], expected='both bounds')
 
 
 # ---------------------------------------------------------------------------------- C16: the honest prover refuses values outside the interval
